@@ -18,10 +18,12 @@ import (
 	"github.com/biogo/biogo/io/featio/bed"
 	"github.com/biogo/biogo/io/featio/gff"
 	"github.com/biogo/biogo/io/seqio"
+	"github.com/biogo/biogo/io/seqio/alignio"
 	"github.com/biogo/biogo/io/seqio/fasta"
 	"github.com/biogo/biogo/io/seqio/fastq"
 	"github.com/biogo/biogo/seq"
 	"github.com/biogo/biogo/seq/linear"
+	"github.com/biogo/biogo/seq/multi"
 
 	"verif/harness/vt"
 )
@@ -388,6 +390,74 @@ func ScanAll(format string, cfg Cfg, text []byte, variant int) (yielded []Rec, h
 	return yielded, hasErr, sticky, ""
 }
 
+// AlignReadAll calls alignio.Reader.Read `calls` times over the text (extension, spec/Formats/AlignIO.tla):
+// each call's outcome is {"kind":"err"} or {"kind":"multi","rows":[records]}.
+func AlignReadAll(format string, cfg Cfg, text []byte, variant, calls int) (out []Rec, status string) {
+	out = []Rec{}
+	defer func() {
+		if p := recover(); p != nil {
+			status = fmt.Sprintf("panic: %v", p)
+		}
+	}()
+	rd := bytes.NewReader(text)
+	var r seqio.Reader
+	withQ := format == "fastq"
+	if format == "fasta" {
+		r = fasta.NewReader(rd, linear.NewSeq("", nil, alphabet.DNA))
+	} else {
+		r = fastq.NewReader(rd, linear.NewQSeq("", nil, alphabet.DNA, encOf(num(cfg["offset"]), variant)))
+	}
+	m, err := multi.NewMulti("aln", nil, nil)
+	if err != nil {
+		vt.Fatal("NewMulti: %v", err)
+	}
+	ar := alignio.NewReader(r, m)
+	for c := 0; c < calls; c++ {
+		got, err := ar.Read()
+		if err != nil {
+			out = append(out, Rec{"kind": "err"})
+			continue
+		}
+		rows := []Rec{}
+		for i := 0; i < got.Rows(); i++ {
+			rec := seqRec(got.Row(i), withQ)
+			delete(rec, "_span")
+			rows = append(rows, rec)
+		}
+		out = append(out, Rec{"kind": "multi", "rows": rows})
+	}
+	return out, ""
+}
+
+// AlignWrite writes recs as one Multi through alignio.Writer over the real FASTA/FASTQ writer.
+func AlignWrite(format string, cfg Cfg, recs []Rec, variant int) (text []byte, n int, errs string) {
+	var w countingWriter
+	var sw seqio.Writer
+	rows := []seq.Sequence{}
+	if format == "fasta" {
+		sw = fasta.NewWriter(&w, num(cfg["w"]))
+		for _, r := range recs {
+			rows = append(rows, seqOf(r, false, alphabet.Sanger, alphabet.DNA))
+		}
+	} else {
+		fw := fastq.NewWriter(&w)
+		fw.QID = cfg["qid"].(bool)
+		sw = fw
+		for _, r := range recs {
+			rows = append(rows, seqOf(r, true, encOf(num(cfg["offset"]), variant), alphabet.DNA))
+		}
+	}
+	m, err := multi.NewMulti("aln", rows, nil)
+	if err != nil {
+		return nil, 0, "NewMulti: " + err.Error()
+	}
+	n, err = alignio.NewWriter(sw).Write(m)
+	if err != nil {
+		errs = err.Error()
+	}
+	return w.buf.Bytes(), n, errs
+}
+
 // ---------------------------------------------------------------- writers
 
 func seqOf(r Rec, withQ bool, enc alphabet.Encoding, alpha alphabet.Alphabet) seq.Sequence {
@@ -607,6 +677,11 @@ func ReadEmitted(w *vt.W, path string) int {
 			ys, hasErr, sticky, status := ScanAll(e.Fmt, e.Cfg, text, n)
 			w.Emit(vt.Ev{"op": "scan", "fmt": e.Fmt, "results": results, "yielded": ys, "err": hasErr, "sticky": sticky, "status": status,
 				"valid": e.Valid, "layout": ev["layout"]})
+			if e.Fmt == "fasta" || e.Fmt == "fastq" {
+				calls, status := AlignReadAll(e.Fmt, e.Cfg, text, n, 3)
+				w.Emit(vt.Ev{"op": "alnread", "fmt": e.Fmt, "results": results, "calls": calls, "status": status,
+					"valid": e.Valid, "layout": ev["layout"]})
+			}
 		}
 		// records of the bounded model through the real writers as well (C01/C02), when the file as first
 		// written carries the full records
@@ -614,6 +689,11 @@ func ReadEmitted(w *vt.W, path string) int {
 		if e.Valid && e.Steps == 0 && !e.CRLF && full {
 			wt, ns, werr := WriteAll(e.Fmt, e.Cfg, e.Expect, n)
 			w.Emit(vt.Ev{"op": "write", "fmt": e.Fmt, "cfg": e.Cfg, "recs": e.Expect, "text": vt.Ints(wt), "ns": ns, "err": werr})
+			if (e.Fmt == "fasta" || e.Fmt == "fastq") && len(e.Expect) > 0 {
+				at, an, aerr := AlignWrite(e.Fmt, e.Cfg, e.Expect, n)
+				w.Emit(vt.Ev{"op": "alnwrite", "fmt": e.Fmt, "cfg": e.Cfg, "recs": e.Expect, "text": vt.Ints(at), "n": an, "err": aerr,
+					"valid": true, "layout": []string{}})
+			}
 		}
 		n++
 	}
